@@ -264,8 +264,8 @@ fn faults_sweep(name: &str, g: Grammar, min_len: usize, max_len: usize) -> Sweep
 }
 
 // (c4) type faults: into every position of a well-typed program whose expected class is fixed by its
-// context (operand of arithmetic / comparison / negation: int; condition: bool; annotation: type;
-// applicand: function) an atom of a wrong class with a unique spelling is planted; some diagnostic
+// context (operand of arithmetic / comparison / negation: int; condition: bool; annotation, domain and
+// codomain of a function type: type; applicand: function) an atom of a wrong class with a unique spelling is planted; some diagnostic
 // must mark exactly the planted text.
 const UNIQ_INT: &str = "424242";
 
@@ -306,6 +306,10 @@ fn plantings(s: &S) -> Vec<(S, &'static str)> {
                     with(&|c| S::Lam { name: name.clone(), implicit: *implicit, ann: Some(bx(c)), body: body.clone() }, a, Slot::Type);
                 }
                 with(&|c| S::Lam { name: name.clone(), implicit: *implicit, ann: ann.clone(), body: bx(c) }, body, Slot::Other);
+            }
+            S::Pi { name, implicit, dom, cod } => {
+                with(&|c| S::Pi { name: name.clone(), implicit: *implicit, dom: bx(c), cod: cod.clone() }, dom, Slot::Type);
+                with(&|c| S::Pi { name: name.clone(), implicit: *implicit, dom: dom.clone(), cod: bx(c) }, cod, Slot::Type);
             }
             S::App(a, b) => {
                 with(&|c| S::App(bx(c), b.clone()), a, Slot::Function);
@@ -563,7 +567,7 @@ impl Prop for C15 {
     fn evidence(&self, tier: Tier) -> EvidenceSpec {
         EvidenceSpec {
             level: "exploration",
-            rule: "(a) error::listing on every text up to 5/6 fragments over {a, é, 4-byte letter, space, tab, LF, CRLF} and every range on character boundaries, compared with the specification (lines intersecting the range, 1-based numbers, marked character columns); (b) for every node of the parse result of every sentence up to the bounds, the node's source range is inside the file and its text re-parses to that node; (c) every sentence up to the bounds in 9 layouts (fault on line 1 / 2 / 9 / 10 so that the gutter widens, after a non-ASCII comment, after 2- and 4-byte identifiers on the same line, broken over lines wherever the line-break rule allows, CRLF+tab continuation lines) with planted faults: every use unbound, every binder re-bound to an enclosing binder's name (all binder forms), a stray symbol ($, a combining mark, a 4-byte emoji) in every gap; type faults: into every operand / condition / annotation / applicand position of every type-directed program up to 5 [6] nodes an atom of a wrong class with a unique spelling is planted (plain and after non-ASCII text on the same line) and some diagnostic must mark exactly it; the diagnostic's listing must mark exactly the planted identifier / symbol (or the parentheses that enclose nothing else). evaluations = texts + sentences x layouts".to_owned(),
+            rule: "(a) error::listing on every text up to 5/6 fragments over {a, é, 4-byte letter, space, tab, LF, CRLF} and every range on character boundaries, compared with the specification (lines intersecting the range, 1-based numbers, marked character columns); (b) for every node of the parse result of every sentence up to the bounds, the node's source range is inside the file and its text re-parses to that node; (c) every sentence up to the bounds in 9 layouts (fault on line 1 / 2 / 9 / 10 so that the gutter widens, after a non-ASCII comment, after 2- and 4-byte identifiers on the same line, broken over lines wherever the line-break rule allows, CRLF+tab continuation lines) with planted faults: every use unbound, every binder re-bound to an enclosing binder's name (all binder forms), a stray symbol ($, a combining mark, a 4-byte emoji) in every gap; type faults: into every operand / condition / annotation / function-type domain and codomain / applicand position of every type-directed program up to 5 [6] nodes an atom of a wrong class with a unique spelling is planted (plain and after non-ASCII text on the same line) and some diagnostic must mark exactly it; the diagnostic's listing must mark exactly the planted identifier / symbol (or the parentheses that enclose nothing else). evaluations = texts + sentences x layouts".to_owned(),
             assumptions: vec![
                 "a diagnostic for a parenthesised operand may cover the operand with or without the parentheses that enclose it and nothing else".to_owned(),
                 "type faults are planted only where the context fixes the expected class (operands, conditions, annotations, applicands) and with uniquely spelled atoms, so the offending subexpression is known by construction".to_owned(),
